@@ -178,6 +178,10 @@ def gen_case(rng):
               'tstart': rng.choice([0.0, 1.5e3, 3.15576e10]), 'sumtim': rng.choice([0.0, 8.64e4, 3.15576e12, 1.23456789e9])}
         if react:
             tm['nm'] = rng.choice([0, 1, 24])
+        if rng.random() < 0.3:
+            # entries without a value (blank fields of the timing record): the entry stays, holding None
+            for k in rng.sample(sorted(tm), rng.randint(1, 3)):
+                tm[k] = None
     # the TOUGHREACT flavour is only recognisable in a file through the permeability columns
     react = react and any(b['permeability'] is not None for b in blocks)
     return {'simulator': 'TOUGHREACT' if react else 'TOUGH2', 'blocks': blocks, 'timing': tm, 'reset': reset, 'num_variables': nv,
@@ -333,6 +337,14 @@ def run_roundtrip(ctx, case, tag='gen'):
         except ValueError:
             nele = htime = None
         st = case['timing']['sumtim']
+        if st is None:
+            # no time to announce: the field is blank
+            try:
+                nele = int(header[31:36])
+            except ValueError:
+                nele = None
+            htime, st = (0.0, 0.0) if not header[55:67].strip() else (None, None)
+            ctx.count('long_headers_without_time')
         if not header.startswith('INCON') or nele != len(case['blocks']) or htime is None or abs(htime - st) > 1e-6 * abs(st):
             ctx.violation('file-header', 'restart header %r does not announce %d elements at time %r' % (header, len(case['blocks']), st), case)
             return
